@@ -193,12 +193,17 @@ void rfbScaledScreenUpdateRect(rfbScreenInfoPtr screen, rfbScreenInfoPtr ptr, in
 
      /* for each *destination* pixel... */
      for (y = 0; y < h1; y++) {
+       /* The source block of a destination pixel must not depend on the rectangle being
+        * refreshed: it starts where that pixel itself maps to. */
+       unsigned char *srcrow = (unsigned char *)screen->frameBuffer +
+         ((size_t)ScaleY(ptr, screen, y1 + y) * screen->paddedWidthInBytes);
        for (x = 0; x < w1; x++) {
+         srcptr = srcrow + (size_t)ScaleX(ptr, screen, x1 + x) * bytesPerPixel;
          red = green = blue = 0;
          /* Get the totals for rgb from the source grid... */
          for (w = 0; w < areaX; w++) {
            for (v = 0; v < areaY; v++) {
-             srcptr2 = &srcptr[(((x * areaX) + w) * bytesPerPixel) +
+             srcptr2 = &srcptr[(w * bytesPerPixel) +
                                (v * screen->paddedWidthInBytes)];
              pixel_value = 0;
 
@@ -242,7 +247,6 @@ void rfbScaledScreenUpdateRect(rfbScreenInfoPtr screen, rfbScreenInfoPtr ptr, in
           }
           dstptr += bytesPerPixel;
        }
-       srcptr += (screen->paddedWidthInBytes * areaY);
        dstptr += (ptr->paddedWidthInBytes - bytesPerLine);
      }
    } else
@@ -250,7 +254,7 @@ void rfbScaledScreenUpdateRect(rfbScreenInfoPtr screen, rfbScreenInfoPtr ptr, in
      for (y = y1; y < (y1+h1); y++) {
        for (x = x1; x < (x1+w1); x++)
          memcpy (&ptr->frameBuffer[(y *ptr->paddedWidthInBytes) + (x * bytesPerPixel)],
-                 &screen->frameBuffer[(y * areaY * screen->paddedWidthInBytes) + (x *areaX * bytesPerPixel)], bytesPerPixel);
+                 &screen->frameBuffer[(ScaleY(ptr, screen, y) * screen->paddedWidthInBytes) + (ScaleX(ptr, screen, x) * bytesPerPixel)], bytesPerPixel);
      }
   }
 }
